@@ -112,6 +112,11 @@ def gen_io_workload(rng, inexpressible=None):
             edges.append({"kind": "landmark", "ids": [ids[i], ids[li]], "estimate": graphs.pose_to_spec(est),
                           "information": fxm(simio.spd_information(rng, 3, cross).tolist()),
                           "offset": graphs.pose_to_spec(par3[pid]), "offset_id": pid})
+    if edges and rng.random() < 0.2:
+        # exact duplicates: two identical measurements are two edges (element order and count are part of the graph)
+        for _ in range(rng.randint(1, 2)):
+            edges.insert(rng.randrange(len(edges) + 1), copy.deepcopy(rng.choice(edges)))
+        meta["duplicate_edges"] = True
     if rng.random() < 0.4:
         rng.shuffle(edges)
     vspecs = [{"id": ids[k], "pose": graphs.pose_to_spec(verts[k]), "fixed": rng.random() < 0.2} for k in order]
@@ -144,7 +149,7 @@ def gen_io_workload(rng, inexpressible=None):
             b = graphs.make_pose("R2", [val(), val()])
             ia, ib = _fresh_ids(rng, ids, 2)
             vspecs += [{"id": ia, "pose": graphs.pose_to_spec(a), "fixed": False}, {"id": ib, "pose": graphs.pose_to_spec(b), "fixed": False}]
-            off = rng.choice([[0.5, 0.1, 0.7], [0.0, 0.0, 1e-3], [1e-9, 0.0, 0.0], [0.0, 2.0, 0.0]])
+            off = rng.choice([[0.5, 0.1, 0.7], [0.0, 0.0, 1e-3], [1e-9, 0.0, 0.0], [0.0, 2.0, 0.0], [1e-13, 0.0, 0.0], [0.0, 0.0, 1e-15], [0.0, -1e-300, 0.0]])
             edges.append({"kind": "landmark", "ids": [ia, ib], "estimate": graphs.pose_to_spec(graphs.make_pose("R2", [0.5, 0.5])),
                           "information": fxm(simio.spd_information(rng, 2, True).tolist()),
                           "offset": graphs.pose_to_spec(graphs.make_pose("SE2", off)), "offset_id": rng.choice([0, None, 2])})
@@ -184,6 +189,7 @@ INEXPRESSIBLE = ["odometry_r2", "odometry_r3", "landmark_rn", "landmark2d_offset
 
 class C13(OptEngineBase):
     PROPERTY = "C13"
+    SWEEP_MENU = {"disk": WRITE_FAULTS}
     ENGINE_NAME = "simio"
     TIERS = {
         "quick": {"runs": 6000, "budget_s": 75, "chunk": 32},
